@@ -79,6 +79,16 @@ def gen(rng, max_src=2, max_tgt=3, alphabet=None, overrides=True):
         if k not in seen:
             seen.add(k)
             pats.append(p)
+    if rng.random() < 0.25 and (nt >= 2 or ns >= 2):
+        # a symmetric family: each node of one side absent in turn (patterns with the same variable layout)
+        side, n = ('tgt', nt) if (nt >= 2 and (ns < 2 or rng.random() < 0.7)) else ('src', ns)
+        for i in range(n):
+            p = {'src': [None] * ns, 'tgt': [None] * nt}
+            p[side][i] = [0]
+            k = sx(sx_pattern(p))
+            if k not in seen:
+                seen.add(k)
+                pats.append(p)
     return {'src': src, 'tgt': tgt, 'excl': excl, 'par': par, 'patterns': pats}
 
 
